@@ -19,7 +19,7 @@ caller, as a state machine).  Helper lemmas: `Tahoe/Happiness/LemmasPlacement*.l
 | "the planned placement assigns every share number to a server" | `placement_total` (every share is a key, its server is in `W ∪ R`), `placement_returns` (a result is returned: no spinning round-robin) |
 | "assigns a read-only server only shares it already holds" | `readonly_only_existing`; for the plans of a selector history `plan_readonly_only_existing` |
 | "spreads shares over the largest number of distinct servers achievable under those constraints" | `spread_maximal` (no placement respecting the read-only clause uses more distinct servers), `spread_ge_matching` (same against every server/share matching), `phase_is_maximum_matching` (each phase is a maximum matching of its network) |
-| "so an upload is never declared unhappy when a happy layout was reachable" | the plan part is the line above; the allocation loop of `Tahoe2ServerSelector.get_shareholders` that consumes the plan is **monitor only** (`harness/props/c07.py` `run_grid`: real selection on the in-process grid with a failing server); the plan the loop sees is fresh: `plan_is_fresh`, `state_ignores_gets` |
+| "so an upload is never declared unhappy when a happy layout was reachable" | planning side, per allocation round of `Tahoe2ServerSelector.get_shareholders` (model: `Answer`, `roundOps`, `SelState.afterRound`, `roundStates`): `round_demotes_every_failure` (error, lost connection and query timeout alike), `round_changes_nothing_else`, `failed_earlier_stays_out`, `plan_after_round_spread_maximal`, `plan_after_round_reaches_happiness` (h healthy writable servers and ≥ h shares ⇒ the next plan uses ≥ h distinct servers), plan freshness `plan_is_fresh`, `state_ignores_gets`; that the real loop feeds the selector exactly `roundOps` is correspondence (`run_grid`: state and plan at every `get_share_placements()` vs `rounds` of the driver) + monitor. **Not modelled**: the loop's exit tests and the verdict itself (`servers_of_happiness(merge_servers(...)) < happy` ⇒ `UploadUnhappinessError`), which depend on the trackers' allocated buckets — monitor only (`selection-unhappy-although-achievable` on the grid); the value compared there is C08's `upload_effective_happiness` |
 | the plan's *input*: what the uploader told the selector before the first plan | specification `toldState` (every server added, read-only ones demoted, every share on disk booked under the server that answered with it) with `told_state_is_ground_truth`; that `Tahoe2ServerSelector.get_shareholders` really puts the selector into that state is **correspondence + monitor** (`run_reupload`: re-uploads on the in-process grid, recorded selector state vs shares on disk and vs `toldState`) |
 | between plans: a server whose allocation failed **or timed out** must leave the writable set | event `SelOp.allocationFailed` (= demotion) with `failed_server_not_writable`, `plan_after_failed_allocation`; that `_buckets_allocated` performs the demotion for every kind of failure incl. the 15 s query timeout is **correspondence + monitor** (`run_grid`: error / hang faults on allocate_buckets and get_buckets, selector state at every plan) |
 | (code before the repairs) | `readonly_only_existing_counterexample`, `shared_indexedShares_row`, `spread_maximal_counterexample`, `spread_maximal_counterexample_after_first_fix`: clauses 2 and 3 are false of `Cfg.asIs` |
@@ -318,5 +318,124 @@ theorem plan_after_failed_allocation (s : SelState) (p : Nat) (ops : List SelOp)
   exact readonly_only_existing _ _ _ _ res hW hdisj h sh p hsp hro
 
 example : SelOp.markBad 1 ∉ [SelOp.getPlacements, SelOp.addPeerWithShare 1 0] := by decide
+
+/-! ### The allocation rounds (`SelState.afterRound`, `roundStates`)
+
+`Tahoe2ServerSelector.get_shareholders` alternates `get_share_placements()` with a round of
+`allocate_buckets` queries; `_buckets_allocated` reports to the selector exactly the failed queries
+(`roundOps`).  The theorems say what the next plan is computed from and what it achieves. -/
+
+/-- **round_demotes_every_failure**: a server whose query failed in the round -- `error`,
+`disconnected` or `timeout` alike -- is read-only and not writable when the next plan is computed -/
+theorem round_demotes_every_failure (s : SelState) (answers : List (Nat × Answer)) (p : Nat)
+    (a : Answer) (hm : (p, a) ∈ answers) (hf : a.failed = true) :
+    p ∉ (s.afterRound answers).peers ∧ p ∈ (s.afterRound answers).readonly := by
+  obtain ⟨_, _, _, h4, h5⟩ := afterRound_spec s answers
+  exact ⟨fun h => ((h5 p).mp h).2 ⟨a, hm, hf⟩, (h4 p).mpr (Or.inl ⟨a, hm, hf⟩)⟩
+
+example : Answer.timeout.failed = true ∧ Answer.error.failed = true ∧ Answer.disconnected.failed = true ∧
+    Answer.ok.failed = false ∧ Answer.noProgress.failed = false := by decide
+
+/-- **round_changes_nothing_else**: servers that answered (also a full one: `noProgress`) keep their
+class, and the existing-share relation, the bad set and the number of shares are untouched -/
+theorem round_changes_nothing_else (s : SelState) (answers : List (Nat × Answer)) :
+    (s.afterRound answers).existing = s.existing ∧ (s.afterRound answers).bad = s.bad ∧
+    (s.afterRound answers).total = s.total ∧
+    ∀ p, ¬ FailedIn answers p →
+      ((p ∈ (s.afterRound answers).peers ↔ p ∈ s.peers) ∧
+       (p ∈ (s.afterRound answers).readonly ↔ p ∈ s.readonly)) := by
+  obtain ⟨h1, h2, h3, h4, h5⟩ := afterRound_spec s answers
+  refine ⟨h1, h2, h3, fun p hp => ⟨?_, ?_⟩⟩
+  · rw [h5 p]; exact ⟨fun h => h.1, fun h => ⟨h, hp⟩⟩
+  · rw [h4 p]; exact ⟨fun h => h.resolve_left hp, Or.inr⟩
+
+/-- **failed_earlier_stays_out**: a server that failed in some round is not writable at any later
+`get_share_placements()` of the loop -/
+theorem failed_earlier_stays_out (s : SelState) (r : List (Nat × Answer)) (p : Nat) (hf : FailedIn r p)
+    (later : List (List (Nat × Answer))) :
+    ∀ st ∈ (s.afterRound r).roundStates later, p ∉ st.peers := by
+  have h0 : p ∉ (s.afterRound r).peers := fun h => (((afterRound_spec s r).2.2.2.2 p).mp h).2 hf
+  generalize s.afterRound r = t at h0
+  induction later generalizing t with
+  | nil => intro st hst; simp only [SelState.roundStates, List.mem_singleton] at hst; subst hst; exact h0
+  | cons r' rest ih =>
+    intro st hst
+    simp only [SelState.roundStates, List.mem_cons] at hst
+    rcases hst with rfl | hst
+    · exact h0
+    · exact ih (t.afterRound r') (fun h => h0 (((afterRound_spec t r').2.2.2.2 p).mp h).1) st hst
+
+/-- two rounds on six servers: server 1 times out in the first round, server 4 raises in the
+second; the states and plans at the three `get_share_placements()` calls -/
+example : ((toldState 4 6 [] []).roundStates [[(0, .ok), (1, .timeout), (2, .ok), (3, .ok)],
+      [(0, .ok), (2, .ok), (3, .ok), (4, .error)]]).map (fun st => (st.peers, st.readonly)) =
+    [([0, 1, 2, 3, 4, 5], []), ([0, 2, 3, 4, 5], [1]), ([0, 2, 3, 5], [1, 4])] := by decide
+
+/-- **plan_after_round_spread_maximal**: the plan computed after a round is spread-maximal for the
+servers as they then are: the failed ones count as read-only (they may keep shares they hold), the
+others as before -/
+theorem plan_after_round_spread_maximal (s : SelState) (answers : List (Nat × Answer))
+    (hdisj : ∀ x ∈ s.peers, x ∉ s.readonly) (hW : (s.afterRound answers).peers ≠ [])
+    (res : List (Nat × Nat)) (h : (s.afterRound answers).plan Cfg.fixed = .ok res)
+    (A : List (Nat × Nat)) (hkeys : (A.map (·.1)).Nodup)
+    (hA : ∀ e ∈ A, e.1 < s.total ∧
+      ((e.2 ∈ s.peers ∧ ¬ FailedIn answers e.2) ∨
+       ((FailedIn answers e.2 ∨ e.2 ∈ s.readonly) ∧ Holds s.existing e.2 e.1))) :
+    distinctServers A ≤ distinctServers res := by
+  obtain ⟨h1, _, h3, h4, h5⟩ := afterRound_spec s answers
+  apply spread_maximal _ _ _ _ res hW ?_ h A hkeys
+  · intro e he
+    obtain ⟨ha, hb⟩ := hA e he
+    refine ⟨by rw [h3]; exact List.mem_range.mpr ha, ?_⟩
+    rcases hb with hb | ⟨hb, hh⟩
+    · left; exact (h5 e.2).mpr hb
+    · right; exact ⟨(h4 e.2).mpr hb, by rw [h1]; exact hh⟩
+  · intro x hx hr
+    have hx' := (h5 x).mp hx
+    rcases (h4 x).mp hr with hf | hro
+    · exact hx'.2 hf
+    · exact hdisj x hx'.1 hro
+
+/-- **plan_after_round_reaches_happiness**: if `h` distinct writable servers did not fail in the
+round and there are at least `h` shares, the next plan is spread over at least `h` distinct
+servers -- a happy layout that is reachable is planned -/
+theorem plan_after_round_reaches_happiness (s : SelState) (answers : List (Nat × Answer))
+    (hdisj : ∀ x ∈ s.peers, x ∉ s.readonly) (H : List Nat) (hH : H.Nodup)
+    (hhealthy : ∀ x ∈ H, x ∈ s.peers ∧ ¬ FailedIn answers x) (hne : H ≠ []) (hshares : H.length ≤ s.total)
+    (res : List (Nat × Nat)) (h : (s.afterRound answers).plan Cfg.fixed = .ok res) :
+    H.length ≤ distinctServers res := by
+  obtain ⟨_, _, h3, h4, h5⟩ := afterRound_spec s answers
+  have hW : (s.afterRound answers).peers ≠ [] := by
+    cases H with
+    | nil => exact absurd rfl hne
+    | cons a _ =>
+      have := (h5 a).mpr (hhealthy a (by simp))
+      intro e; rw [e] at this; simp at this
+  have := Tahoe.Happiness.spread_ge_matching _ _ _ _ res hW (by
+      intro x hx hr
+      have hx' := (h5 x).mp hx
+      rcases (h4 x).mp hr with hf | hro
+      · exact hx'.2 hf
+      · exact hdisj x hx'.1 hro) h (H.zip (List.range s.total))
+    (zip_matching _ _ hH List.nodup_range) (by
+      intro e he
+      obtain ⟨x, y⟩ := e
+      have hm := List.of_mem_zip he
+      exact ⟨by rw [h3]; exact hm.2, Or.inl ((h5 x).mpr (hhealthy x hm.1))⟩)
+  simpa [Nat.min_eq_left hshares] using this
+
+/-- the seeded C07-e scenario in the model: six writable servers, four shares, server 1 never
+answers its allocation (timeout): four healthy servers `[0,2,3,4]` meet the hypotheses, and the
+plan after the round indeed uses four distinct servers -/
+example : (∀ x ∈ [0, 2, 3, 4], x ∈ (toldState 4 6 [] []).peers ∧
+      ¬ FailedIn [(0, Answer.ok), (1, .timeout), (2, .ok), (3, .ok)] x) ∧
+    ((toldState 4 6 [] []).afterRound [(0, .ok), (1, .timeout), (2, .ok), (3, .ok)]).plan Cfg.fixed
+      = .ok [(0, 0), (1, 2), (2, 3), (3, 4)] := by
+  refine ⟨?_, by decide +kernel⟩
+  intro x hx
+  refine ⟨by revert x; decide, ?_⟩
+  rintro ⟨a, ha, hf⟩
+  simp only [List.mem_cons, Prod.mk.injEq, List.not_mem_nil, or_false] at ha hx
+  rcases ha with ⟨rfl, rfl⟩ | ⟨rfl, rfl⟩ | ⟨rfl, rfl⟩ | ⟨rfl, rfl⟩ <;> simp_all [Answer.failed]
 
 end Tahoe.C07
